@@ -121,24 +121,126 @@ func rulesC12(c *Ctx) {
 			c.Bad("R3", tn+".AppendError/Kill", 0, "anchor not found")
 			continue
 		}
-		// stores to the errors field
-		var appends []ssa.Instruction
-		eachInstr(ae, func(_ *ssa.BasicBlock, _ int, in ssa.Instruction) {
+		n3++
+		con := tn + ".AppendError signals done after recording"
+		isErrStore := func(in ssa.Instruction) bool {
 			if st, ok := in.(*ssa.Store); ok {
 				if fa, ok := st.Addr.(*ssa.FieldAddr); ok && strings.HasSuffix(fieldName(fa), "."+T.Obj().Name()+".errors") {
-					appends = append(appends, st)
+					return true
 				}
 			}
-		})
-		isStop := func(in ssa.Instruction) bool {
-			ci := callInfo(in, nil, 0)
-			if ci == nil {
+			return false
+		}
+		containsErrStore := func(g *ssa.Function) (found bool, blocks []*ssa.BasicBlock) {
+			if g == nil {
+				return
+			}
+			eachInstr(g, func(b *ssa.BasicBlock, _ int, in ssa.Instruction) {
+				if isErrStore(in) {
+					found = true
+					blocks = append(blocks, b)
+				}
+			})
+			return
+		}
+		// append sites in AppendError: direct stores, or calls of a helper / function literal that stores
+		var sites []ssa.Instruction
+		indicators := map[ssa.Value]bool{}   // SSA values that change exactly where an error is recorded
+		indAllocs := map[ssa.Value]bool{}    // variables (allocs / captured) written where an error is recorded
+		markBlock := func(g *ssa.Function, b *ssa.BasicBlock) {
+			for _, in := range b.Instrs {
+				switch x := in.(type) {
+				case *ssa.BinOp:
+					indicators[x] = true
+				case *ssa.Store:
+					if !isErrStore(x) {
+						indAllocs[x.Addr] = true
+						if fv, ok := x.Addr.(*ssa.FreeVar); ok {
+							if bnd := bindingOf(fv); bnd != nil {
+								indAllocs[bnd] = true
+							}
+						}
+					}
+				}
+			}
+			// phis that receive a constant from this block (flag := true)
+			for _, sb := range b.Succs {
+				for _, in := range sb.Instrs {
+					p, ok := in.(*ssa.Phi)
+					if !ok {
+						break
+					}
+					for i, pred := range sb.Preds {
+						if pred == b {
+							if _, isC := p.Edges[i].(*ssa.Const); isC {
+								indicators[p] = true
+							}
+							if indicators[p.Edges[i]] {
+								indicators[p] = true
+							}
+						}
+					}
+				}
+			}
+		}
+		if ok, blocks := containsErrStore(ae); ok {
+			for _, b := range blocks {
+				for _, in := range b.Instrs {
+					if isErrStore(in) {
+						sites = append(sites, in)
+					}
+				}
+				markBlock(ae, b)
+			}
+		}
+		for _, ci := range Calls(ae) {
+			var g *ssa.Function
+			if ci.Static != nil && ci.Static.Pkg == ae.Pkg && ci.Static != ms["Stop"] {
+				g = ci.Static
+			}
+			if mc, ok := ci.Common.Value.(*ssa.MakeClosure); ok {
+				g, _ = mc.Fn.(*ssa.Function)
+			}
+			if ok, blocks := containsErrStore(g); ok && ci.Kind == "call" {
+				sites = append(sites, ci.Instr)
+				if v := ci.Value(); v != nil {
+					indicators[v] = true // the helper reports how many it stored
+				}
+				for _, b := range blocks {
+					markBlock(g, b)
+				}
+			}
+		}
+		dependsOnIndicator := func(v ssa.Value) bool {
+			seen := map[ssa.Value]bool{}
+			var rec func(v ssa.Value, d int) bool
+			rec = func(v ssa.Value, d int) bool {
+				if v == nil || seen[v] || d > 10 {
+					return false
+				}
+				seen[v] = true
+				if indicators[v] {
+					return true
+				}
+				if u, ok := v.(*ssa.UnOp); ok && u.Op == token.MUL && indAllocs[u.X] {
+					return true
+				}
+				in, ok := v.(ssa.Instruction)
+				if !ok {
+					return false
+				}
+				for _, op := range in.Operands(nil) {
+					if op != nil && *op != nil && rec(*op, d+1) {
+						return true
+					}
+				}
 				return false
 			}
-			if ci.Static != nil && ci.Static == ms["Stop"] {
-				return true
-			}
-			return false
+			return rec(v, 0)
+		}
+		isStop := func(in ssa.Instruction) bool {
+			ci := callInfo(in, nil, 0)
+			return ci != nil && ci.Static != nil && ci.Static == ms["Stop"]
 		}
 		var stops []ssa.Instruction
 		eachInstr(ae, func(_ *ssa.BasicBlock, _ int, in ssa.Instruction) {
@@ -146,26 +248,50 @@ func rulesC12(c *Ctx) {
 				stops = append(stops, in)
 			}
 		})
-		n3++
-		if len(appends) == 0 || len(stops) == 0 {
-			c.Bad("R3", tn+".AppendError signals done after recording", ae.Pos(), "AppendError does not both record errors and call Stop; cannot certify")
+		reachesStop := func(b *ssa.BasicBlock) bool {
+			for _, s := range stops {
+				if reachesBlock(b, s.Block()) {
+					return true
+				}
+			}
+			return false
+		}
+		if len(sites) == 0 || len(stops) == 0 {
+			c.Bad("R3", con, ae.Pos(), "AppendError does not both record errors and call Stop; cannot certify")
 		} else {
 			ok := true
 			why := ""
-			for _, ap := range appends {
-				bad := MustPassF(ae, ap, isStop, counterFeasible(ae, appends))
-				if len(bad) > 0 {
+			feasible := func(st int, pred, succ *ssa.BasicBlock) bool {
+				// after an error was recorded, a test of the "something was recorded" indicator cannot take the side that avoids Stop
+				if len(pred.Instrs) == 0 || len(pred.Succs) != 2 {
+					return true
+				}
+				iff, isIf := pred.Instrs[len(pred.Instrs)-1].(*ssa.If)
+				if !isIf || !dependsOnIndicator(iff.Cond) {
+					return true
+				}
+				other := pred.Succs[0]
+				if other == succ {
+					other = pred.Succs[1]
+				}
+				if !reachesStop(succ) && reachesStop(other) {
+					return false
+				}
+				return true
+			}
+			for _, ap := range sites {
+				if bad := MustPassF(ae, ap, isStop, feasible); len(bad) > 0 {
 					ok, why = false, fmt.Sprintf("the return at %s is reachable after an error was recorded without calling Stop", c.pos(bad[0].Instr.Pos()))
 				}
 			}
 			for _, s := range stops {
-				for _, ap := range appends {
+				for _, ap := range sites {
 					if reachableFrom(s, ap) {
 						ok, why = false, "an error is recorded after Stop was called: an observer woken by 'done' reads an empty error list"
 					}
 				}
 			}
-			c.Check(ok, "R3", tn+".AppendError signals done after recording", ae.Pos(), "every recording path reaches Stop, and nothing is recorded after Stop", why)
+			c.Check(ok, "R3", con, ae.Pos(), "every recording path reaches Stop, and nothing is recorded after Stop", why)
 		}
 	}
 	n3 += ruleKillRecords(c, "R3")
@@ -382,7 +508,15 @@ func ruleChildSignOn(c *Ctx) {
 		c.Bad("R4", "scope.Scope", 0, "anchor not found")
 		return
 	}
-	st, pi := fieldIndex(scopeT, "parent")
+	pname := ""
+	if sst, ok := scopeT.Underlying().(*types.Struct); ok {
+		for i := 0; i < sst.NumFields(); i++ {
+			if f := sst.Field(i); !f.Embedded() && strings.HasSuffix(f.Type().String(), "/app.Scope") {
+				pname = f.Name()
+			}
+		}
+	}
+	st, pi := fieldIndex(scopeT, pname)
 	if pi < 0 {
 		c.Bad("R4", "scope.Scope.parent", 0, "field not found: the sign-off mechanism changed; cannot certify")
 		return
@@ -410,7 +544,7 @@ func ruleChildSignOn(c *Ctx) {
 			if facts == nil {
 				facts = factsFor(f)
 			}
-			con := "scope.Scope.parent set in " + fname(f)
+			con := "the parent a scope signs off from is set in " + fname(f)
 			// every non-nil way the value can arise is on an edge where AddTasks(...) returned nil
 			addTasks := []*ssa.Call{}
 			for _, ci := range Calls(f) {
@@ -460,7 +594,10 @@ func ruleChildSignOn(c *Ctx) {
 	}
 	c.Floor("R4", n, 1)
 	// close(): DoneTask on the parent only when it is non-nil
-	cl := c.P.Func(scopePkg, "Scope", "close")
+	var cl *ssa.Function
+	if sro := discoverScopeRoles(c); sro != nil {
+		cl = sro.closeH
+	}
 	if cl == nil {
 		c.Bad("R4", "scope.(*Scope).close signs off", 0, "anchor not found")
 		return
